@@ -277,6 +277,8 @@ ONLY = {"C06": ("GroupSize", "GroupIndex", "runs"), "C08": ("RekeyTo", "runs"), 
 def run(pid, ctx, rep):
     if pid in ("C04", "C02"):
         sweep_cfg(ctx, rep)
+        if pid == "C02":
+            sweep_search(ctx, rep)
     elif pid == "C05":
         sweep_cfg(ctx, rep, rule="T-CFG(sweep, subroutines)")
     elif pid in ONLY:
@@ -586,3 +588,134 @@ def sweep_meta(ctx, rep, rule="T-META(sweep)", cfg=None, minimum=50):
     rep.samples.append({"rule": rule, "case": {"programs": total, "variants": list(META_VARIANTS)}, "verdict": "ok" if not bad else "disagreements"})
     if total < minimum:
         raise AnalysisError(f"only {total} programs evaluated")
+
+
+# ---------------------------------------------------------------------------------------------- path search sweep (C01, C02)
+
+def reference_search(ref, validated):
+    """the paths C02 describes, computed on the reference graph: from the entry along the global successor relation (callsub -> callee
+    entry, retsub -> the block after its own callsub), cut at a validated block, at a block already executed in the same subroutine
+    activation and at a call of a subroutine that is already active; a path is reported when it reaches a block with no successor that is
+    neither a callsub nor a retsub"""
+    blocks = ref["blocks"]
+    callee_of, sub_of = {}, {}
+    for name, s in ref["subs"].items():
+        for b in s["blocks"]:
+            sub_of[b] = name
+        if name != "__main__":
+            for c in s["callers"]:
+                callee_of[c] = name
+    out = []
+    budget = [400000]
+
+    def kind(b):
+        return blocks[b]["text"][-1].split()[0]
+
+    def rec(b, path, stack, executed):
+        budget[0] -= 1
+        if budget[0] < 0:
+            raise RuntimeError("reference search budget exhausted")
+        if b in executed[-1] or b in validated:
+            return
+        path = path + [b]
+        k = kind(b)
+        nxt = blocks[b]["next"]
+        if not nxt and k not in ("retsub", "callsub"):
+            out.append(tuple(path))
+            return
+        executed = executed[:-1] + [executed[-1] | {b}]
+        if k == "callsub":
+            callee = callee_of.get(b)
+            if callee is None or callee in [f[1] for f in stack]:
+                return
+            rec(ref["subs"][callee]["entry"], path, stack + [(b, callee)], executed + [frozenset()])
+        elif k == "retsub":
+            cs = stack[-1][0]
+            if cs is None:
+                return
+            rp = blocks[cs]["next"][0] if blocks[cs]["next"] else None
+            if rp is not None:
+                rec(rp, path, stack[:-1], executed[:-1])
+        else:
+            for n2 in nxt:
+                rec(n2, path, stack, executed)
+    rec(0, [], [(None, "__main__")], [frozenset()])
+    return sorted(out)
+
+
+SEARCH_PATTERNS = {"nothing validated": lambda i: False, "odd blocks validated": lambda i: i % 2 == 1, "every third block validated": lambda i: i % 3 == 2,
+                   "entry validated": lambda i: i == 0}
+
+
+def _search_worker(args):
+    root, shard, nshards, kmain, ksub = args
+    import sys
+    sys.setrecursionlimit(20000)
+    from .context import Ctx
+    from .absint import PyRaise, Unsupported, Interp
+    from .rules.cfg_rules import reference_cfg, PT, PF
+    from .rules.detectors import _marker_pred, DU
+    from . import gen
+    ctx = Ctx(root)
+    w = ctx.world
+    w.module(PF).values["_apply_transaction_context_analysis"] = ("builtin", "noop")
+    pt, cf = w.func(PT, "parse_teal"), w.func(PF, "construct_function")
+    detect = w.func(DU, "detect_missing_tx_field_validations")
+    pred = _marker_pred(ctx)
+    out, n = [], 0
+    import itertools as _it
+    for k, (name, src) in enumerate(_it.chain(gen.programs(kmain, ksub), gen.loop_call_programs())):
+        if k % nshards != shard:
+            continue
+        n += 1
+        try:
+            ref = reference_cfg(ctx, src)
+            teal = w.call(pt, src, "c")
+            fn = w.call(cf, teal, ["B0"])
+            fblocks = {w.getattr(b, "idx"): b for b in w.getattr(fn, "blocks")}
+            main_retsubs = {b for b in ref["subs"]["__main__"]["blocks"] if ref["blocks"][b]["text"][-1].split()[0] == "retsub"}
+            for pname, patt in SEARCH_PATTERNS.items():
+                # a retsub outside a subroutine always carries the empty context after the real analysis (nothing is accepted through it)
+                validated = {i for i in fblocks if patt(i)} | main_retsubs
+                for i, b in fblocks.items():
+                    c = w.call(w.method(fn, "transaction_context"), b)
+                    Interp(c.cls.mod).assign_attr(c, "max_fee_unknown", i in validated)
+                got = sorted(tuple(w.getattr(x, "idx") for x in p) for p in w.call(detect, fn, pred))
+                want = reference_search(ref, {i for i in validated if i in ref["blocks"]})
+                if got != want:
+                    out.append((name, src, pname, got[:6], want[:6]))
+                    break
+        except PyRaise as e:
+            out.append((name, src, "runs", f"RAISES {e.exc} {e.where}", "completes"))
+        except (Unsupported, RuntimeError) as e:
+            out.append((name, src, "ANALYSIS", str(e), ""))
+    return n, out
+
+
+def sweep_search(ctx, rep, rule="T-SEARCH(sweep)", kmain=3, ksub=2):
+    rep.rule(rule, "bounded-exhaustive: on every control skeleton (<= 3 main blocks, <= 2 subroutine blocks, full terminator alphabet incl. retsub in "
+                   "the main program; plus the 3640 skeletons with 3+3 blocks in which the main program loops back over a call and the callee can both "
+                   "return and end the program) and four validation patterns, the paths reported by detect_missing_tx_field_validations are exactly the paths "
+                   "C02 describes, computed independently on the reference graph (start at the entry, global successor relation with call/return "
+                   "matching, cut at validated blocks, per-activation loop cut, recursion cut, end at a block where execution can terminate); "
+                   "compared as multisets, so every path is reported once")
+    nshards = JOBS
+    with concurrent.futures.ProcessPoolExecutor(max_workers=JOBS) as ex:
+        results = list(ex.map(_search_worker, [(str(ctx.root), s, nshards, kmain, ksub) for s in range(nshards)]))
+    total = sum(n for n, _ in results)
+    bad = [x for _, o in results for x in o]
+    for name, src, what, got, want in bad:
+        if what == "ANALYSIS":
+            raise AnalysisError(f"program {name}: {got}")
+    for name, src, what, got, want in bad[:5]:
+        rep.violation(rule, f"{what}: {name}", ctx.path("tealer.detectors.utils"), {"program": src, "paths": got}, want,
+                      why="the reported paths differ from the paths of the reference search")
+    good = total - len(bad)
+    rep.obligations += good
+    rep.discharged += good
+    rep.rules[rule]["obligations"] += good
+    rep.count("skeletons searched", total)
+    rep.counts["validation patterns per skeleton"] = len(SEARCH_PATTERNS)
+    rep.samples.append({"rule": rule, "case": {"programs": total, "patterns": list(SEARCH_PATTERNS)}, "verdict": "ok" if not bad else "disagreements"})
+    if total < 1000:
+        raise AnalysisError(f"only {total} skeletons searched")
